@@ -25,7 +25,7 @@ def verrName : VErr → String
   | .dupOp => "dupOp" | .conflictOp => "conflictOp"
   | .vendorWildcard => "vendorWildcard" | .dupInclude => "dupInclude"
   | .constType => "constType" | .constRef => "constRef" | .constRefInclude => "constRefInclude"
-  | .constRefIncluded => "constRefIncluded" | .constName => "constName"
+  | .constRefIncluded => "constRefIncluded" | .constRefEnum => "constRefEnum" | .constName => "constName"
   | .typedefType => "typedefType" | .typedefCycle => "typedefCycle"
   | .fieldType => "fieldType" | .dupFieldId => "dupFieldId"
   | .retType => "retType" | .argType => "argType" | .excType => "excType"
